@@ -240,6 +240,74 @@ def run_agent_api(params, known):
                 violations=out_v, known=kn, samples=[])
 
 
+def run_agent_receive(params, known):
+    '''Several contacts of one agent receive at the same time (every peer numbers its transfers
+    from 1).  Nothing is popped until the run is over; then every contact must list exactly the
+    ids announced on it, and popping them must return what that contact's peer sent.'''
+    from ..agent_world import AgentWorld, CONTACT_IFACE
+    from ..world import Violation
+    PPATH = '/org/ietf/dtn/tcpcl/Contact0'
+    violations = []
+    kinds = set()
+    count = 0
+    keys = set()
+
+    def viol(kind, sig, detail, case):
+        key = (kind, tuple(sorted(sig.items())))
+        if key in kinds:
+            return
+        kinds.add(key)
+        v = Violation(PROP, 'agent-receive', kind, sig, '%r: %s' % (case, detail)).as_dict()
+        v['case'] = case
+        violations.append(v)
+    for contacts in (['out'], ['out', 'out'], ['out', 'in'], ['in', 'in'], ['in', 'out', 'in']):
+        names = ['X'] + ['P%d' % i for i in range(len(contacts))]
+        for nb in (1, 2):
+            for order in [names[k:] + names[:k] for k in range(len(names))] + [list(reversed(names))]:
+                count += 1
+                case = dict(contacts=contacts, bundles_per_peer=nb, order=order)
+                w = AgentWorld(dict(contacts=contacts))
+                w.run_policy(order)
+                sent = {}
+                for i in range(len(contacts)):
+                    sent[i] = [bytes([0x30 + i]) * (2 + j) + bytes([j]) for j in range(nb)]
+                    for data in sent[i]:
+                        w.bus_call(w.procs['P%d' % i], PPATH, 'send_bundle_data', data, iface=CONTACT_IFACE)
+                w.run_policy(order)
+                px = w.procs['X']
+                paths = [str(p) for p in w.x_contacts()[1]]
+                peer_of = {}
+                for path in paths:
+                    prm = w.bus_call(px, path, 'get_session_parameters', iface=CONTACT_IFACE)
+                    peer_of[path] = str(prm[1]['peer_nodeid']) if prm[0] == 'ok' else None
+                for path in paths:
+                    i = int(peer_of[path][len('dtn://p'):-1])
+                    announced = [a[0] for (pn, pth, m, a) in w.sig.log if pn == 'X' and pth == path and m == 'recv_bundle_finished']
+                    q = w.bus_call(px, path, 'recv_bundle_get_queue', iface=CONTACT_IFACE)
+                    if q[0] != 'ok' or sorted(str(x) for x in q[1]) != sorted(announced):
+                        viol('receive-queue-differs', dict(), 'contact %s lists %r, announced on it %r' % (path, q, announced), case)
+                        continue
+                    if len(announced) != nb:
+                        viol('bundles-not-announced', dict(), 'contact %s announced %r, its peer sent %d' % (path, announced, nb), case)
+                        continue
+                    got = []
+                    for bid in announced:
+                        res = w.bus_call(px, path, 'recv_bundle_pop_data', bid, iface=CONTACT_IFACE)
+                        got.append(bytes(res[1]) if res[0] == 'ok' else repr(res))
+                    if got != sent[i]:
+                        viol('pop-returns-other-data', dict(), 'contact %s (peer %d) pops %r, its peer sent %r' % (path, i, got, sent[i]), case)
+                if w.sig.escaped:
+                    viol('exception-escaped-callback', dict(exc=w.sig.escaped[-1][1]), '%s: %s' % (w.sig.escaped[-1][1], w.sig.escaped[-1][2]), case)
+                if w.sig.marshal_errors:
+                    viol('signal-or-return-does-not-fit-signature', dict(), repr(w.sig.marshal_errors[-1]), case)
+                keys.add('%s/%d/%s' % ('+'.join(contacts), nb, ''.join(order)))
+    kn, out_v = [], []
+    for v in violations:
+        ent = known.match(v) if known is not None else None
+        (kn if ent else out_v).append(dict(v, entry=ent) if ent else v)
+    return dict(name=params['name'], evaluations=count, nontrivial_keys=sorted(keys), violations=out_v, known=kn, samples=[])
+
+
 def replay_case(body, verbose=False):
     case = body['case']
     print('peer reactions %r to an endpoint (%s) with bundles %r' % (case['reactions'], case['role'], case['bundles']))
@@ -281,6 +349,7 @@ def scenarios(tier):
             nm = 'refusals-%s-%s' % (role, label)
             out.append(dict(name=nm, kind='enum', runner='run_refusals',
                             params=dict(name=nm, role=role, bundles=bundles, depth=depth), weight=15))
+    out.append(dict(name='agent-receive', kind='enum', runner='run_agent_receive', params=dict(name='agent-receive'), weight=15))
     adepth = 3
     aparts = 4 if tier == 'quick' else 8
     for part in range(aparts):
@@ -305,6 +374,7 @@ ASSUMPTIONS = [
     'D-Bus marshalling judged by a rule table re-stated from probes of real dbus-python 1.3.2 (self-test in setup)',
     'method calls are dispatched between event-loop iterations; queries are evaluated in every explored state',
     'workloads of at most two bundles per direction',
+    'several contacts of one agent receiving at once (1-3 contacts, 1-2 bundles per peer, rotation-fair schedules): per-contact queue listing and pops',
     'agent object (tcpcl.agent.Agent): every sequence of up to 3 (thorough 4) calls from a menu of ten (listen, connect, peer connecting, listen_stop, get_connections, shutdown, stop and their failing variants), run to quiescence after each',
     'scripted-peer part: every sequence of up to 3 (thorough 4) reactions from {acknowledge next segment, refuse transfer 1, 2 or an unknown one, repeat the last acknowledgement} against one, two-segment and two queued bundles, endpoint active and passive',
 ]
